@@ -2,7 +2,7 @@
    present / verifies are pysaml2's own view: item.signature after parsing, and the
    outcome of SecurityContext._check_signature for that element (C01/C03/C20 say
    what a positive outcome means). *)
-From PV Require Import Lib.Base Model.Status Model.Response Model.Client Proofs.Response_lemmas Proofs.Rel_lemmas Proofs.C02_lemmas Proofs.Client_lemmas.
+From PV Require Import Lib.Base Model.Status Model.Response Model.Client Proofs.Response_lemmas Proofs.Rel_lemmas Proofs.C02_lemmas Proofs.Client_lemmas Model.AdviceSig.
 Open Scope Z_scope.
 
 (* For EVERY configuration, clock, content and signature state:
